@@ -44,8 +44,8 @@ RULE = (
     "rejection, a reader or writer seek, a rejected 0 past the end; distinct by hash of the executed "
     "operation list. exh: every file of 0 and 1 bytes and every 2-byte file with the last 16-L bits zero "
     "(L = 14 quick / 16 thorough; i.e. every bit string of length <= L as flush() pads it) x start offset "
-    "0 or 3 (alternating per program and per file) x block length 0..bits+2 (and -2,-1 on BitstreamReader only) x 12 read programs of "
-    "uint/sint/bool/nbits inside the block followed by the block end, the unused bits and two reads "
+    "0 or 3 (alternating per program and per file) x block length 0..bits+2 (and -2,-1 on BitstreamReader "
+    "only) x 12 read programs of uint/sint/bool/nbits inside the block followed by the block end, the unused bits and two reads "
     "outside; each (file, offset, length, program) is one evaluation; the distinct count for this part is "
     "the number of (file, block length) pairs for which some program consumed at least one real bit in the "
     "block AND read at least one bit past its end. len: enumerated 0..4096 and 2^k+-{0,1,2} for k<=300 "
@@ -1139,7 +1139,7 @@ def run_exh(ctx, k, n, mods):
 # part (c): exp-Golomb length functions
 
 
-def check_len(v, col, mods):
+def check_len(v, col, mods=None):
     from vc2_conformance.bitstream import exp_golomb as EG
     from vc2_conformance.bitstream.exceptions import OutOfRangeError
     from vc2_conformance.bitstream.io import BitstreamReader, BitstreamWriter
